@@ -7,7 +7,8 @@
 (*    peak (live bytes at the peak), dict (final stream dictionary), bytes  *)
 (*    (final bytes, only where the                                          *)
 (*    classifier needs them), nest (kinds of deep nesting in the input),    *)
-(*    rep (the token or padding repeated >= 10^4 times in the input, or ""),*)
+(*    rep (the shape that costs depth or time: "repeat.<token>" repeated    *)
+(*    >= 10^4 times, "chain.<kind>" of >= 100 objects, "decoy.<word>"; or ""),*)
 (*    insx (the inserted key whose integer value equals the refused size),  *)
 (*    insb (the first inserted key with a huge integer value), or "",       *)
 (*    wzero (xref stream with three zero widths)]                           *)
@@ -129,12 +130,12 @@ JoinKinds(ks) == FoldLeft(LAMBDA acc, k : IF acc = "" THEN k ELSE acc \o "+" \o 
 Where(rec) ==
     IF rec.kind = "panic" THEN rec.loc \o ":" \o rec.mcl
     ELSE IF rec.kind = "stackoverflow" THEN (IF rec.nest # <<>> THEN "nest." \o JoinKinds(rec.nest)
-                                             ELSE IF rec.rep # "" THEN "repeat." \o rec.rep ELSE "unclassified")
+                                             ELSE IF rec.rep # "" THEN rec.rep ELSE "unclassified")
     ELSE IF rec.kind = "allocabort" THEN
          (IF Len(rec.refused) <= 6 THEN (IF rec.wzero THEN "exhausted.W000" ELSE "exhausted")       \* many small requests until the cap
           ELSE AskedFor(rec))
     ELSE IF rec.kind = "hang" THEN (IF rec.wzero THEN "W000" ELSE IF rec.nest # <<>> THEN "nest." \o JoinKinds(rec.nest)
-                                    ELSE IF rec.rep # "" THEN "repeat." \o rec.rep ELSE "unclassified")
+                                    ELSE IF rec.rep # "" THEN rec.rep ELSE "unclassified")
     ELSE IF rec.kind \in {"ok", "err"} /\ BigRequest(rec) THEN AskedFor(rec)                         \* a refused big request, handled
     ELSE IF rec.kind \in {"ok", "err"} THEN (IF rec.wzero THEN "W000" ELSE AskedFor(rec))             \* memory piled up
     ELSE "unclassified"
